@@ -356,4 +356,142 @@ theorem gen_setupTrackers_step (h : Handle α) (fwd : Bool) (e : IfaceEntry) (es
   cases hf : h.fixed <;> cases hs : e.send fwd <;>
     simp [Gen.trackersStepFixed, gen_sendAlloc, gen_recvAlloc, hf, hs]
 
+/-! ### trackers in skipped position ("normal"): a second `skipZeroIndices` does nothing
+
+Used so that the `checkAndContinue` theorems hold whether or not the source repeats `skipZeroIndices()` after
+`comm_func` (both functors leave a skipped tracker skipped). -/
+
+def Normal (t : Tracker) : Prop := t.skipZeroIndices = t
+
+theorem normal_skip (t : Tracker) : Normal t.skipZeroIndices := by
+  unfold Normal Tracker.skipZeroIndices
+  cases hs : t.hasSizes
+  · simp [hs]
+  · simp [hs, skipZ_idem]
+
+theorem normal_move (t : Tracker) : Normal t.moveToNextIndex := by
+  unfold Tracker.moveToNextIndex; exact normal_skip _
+
+theorem normal_packFixedLoop (h : Handle α) : ∀ (n : Nat) (t : Tracker) (b : MessageBuffer α), Normal t →
+    Normal (packFixedLoop h n t b).1 := by
+  intro n
+  induction n with
+  | zero => intro t b ht; exact ht
+  | succ n ih =>
+    intro t b ht
+    unfold packFixedLoop
+    split
+    · exact ht
+    · exact ih _ _ (normal_move t)
+
+theorem normal_packVarLoop (h : Handle α) : ∀ (fuel : Nat) (t : Tracker) (b : MessageBuffer α) (p : Nat), Normal t →
+    Normal (packVarLoop h fuel t b p).2.1 := by
+  intro fuel
+  induction fuel with
+  | zero => intro t b p ht; exact ht
+  | succ fuel ih =>
+    intro t b p ht
+    unfold packVarLoop
+    split
+    · exact ht
+    · split
+      · exact ih _ _ _ (normal_move t)
+      · exact ht
+
+theorem normal_skipZeroSend (h : Handle α) : ∀ (fuel : Nat) (t : Tracker), Normal t → Normal (skipZeroSend h fuel t) := by
+  intro fuel
+  induction fuel with
+  | zero => intro t ht; exact ht
+  | succ fuel ih =>
+    intro t ht
+    unfold skipZeroSend
+    split
+    · exact ht
+    · split
+      · exact ih _ (normal_move t)
+      · exact ht
+
+theorem normal_packEntries (h : Handle α) (t : Tracker) (b : MessageBuffer α) (ht : Normal t) :
+    Normal (packEntries h t b).2.1 := by
+  unfold packEntries
+  split
+  · exact normal_packFixedLoop h _ t b ht
+  · exact normal_packVarLoop h _ _ b 0 (normal_skip t)
+
+@[simp] theorem setupSend_skipped (h : Handle α) (t : Tracker) (b : MessageBuffer α) :
+    (setupSend h t.skipZeroIndices b).tracker.skipZeroIndices = (setupSend h t.skipZeroIndices b).tracker := by
+  unfold setupSend
+  exact normal_skipZeroSend h _ _ (normal_packEntries h _ _ (normal_skip t))
+
+@[simp] theorem setupRecv_skipped {β : Type} (rep : Bool) (t : Tracker) (b : MessageBuffer β) :
+    (setupRecv rep t.skipZeroIndices b).1.skipZeroIndices = (setupRecv rep t.skipZeroIndices b).1 := by
+  unfold setupRecv
+  cases rep
+  · exact normal_skip t
+  · exact normal_skip _
+
+/-! ### checkAndContinue: the body for one completed request -/
+
+theorem gen_ccDefaults : Gen.ccDefaults = (true, false) := by decide
+
+/-- `--no_completed` happens exactly when a new communication was set up and `valid` is set -/
+theorem gen_uncounted {σ β γ : Type} (gc valid : Bool)
+    (bf : Tracker → MessageBuffer β → Nat → σ → Tracker × MessageBuffer β × σ)
+    (cf : Tracker → MessageBuffer β → Tracker × MessageBuffer β × γ) (n : Nat) (t : Tracker) (b : MessageBuffer β) (a : σ) :
+    (Gen.checkAndContinueBody gc valid bf cf n t b a).2.2.2.2 =
+      (valid && (Gen.checkAndContinueBody gc valid bf cf n t b a).2.2.2.1.isSome) := by
+  unfold Gen.checkAndContinueBody
+  cases gc <;> simp only [if_true, if_false, Bool.false_eq_true] <;> split <;> simp
+
+/-- the state of the neighbour machine after `recvDone`, from the result of the generated body -/
+def recvDoneResult {σ : Type} (s : Pair α σ) (r : Tracker × MessageBuffer α × σ × Option Bool × Bool) : Pair α σ :=
+  match r with
+  | (t, b, acc, some posted, _) => { s with rt := t, rb := b, acc := acc, rreq := if posted then .posted else .null }
+  | (t, b, acc, none, _) => { s with rt := t, rb := b, acc := acc, rreq := .null, recvOpen := false }
+
+/-- the state of the neighbour machine after `sendDone`, from the result of the generated body -/
+def sendDoneResult {σ : Type} (s : Pair α σ) (r : Tracker × MessageBuffer α × Unit × Option (Option (List α)) × Bool) :
+    Pair α σ :=
+  match r with
+  | (t, b, _, some msg, _) =>
+      { s with st := t, sb := b, sreq := if msg.isSome then .active else .null, chan := s.chan ++ msg.toList }
+  | (t, _, _, none, _) => { s with st := t, sreq := .null, sendOpen := false }
+
+/-- what `recvLoop` does after the generated body ran for the first message -/
+def recvLoopResult {β σ : Type} (rep gc : Bool)
+    (unpack : Tracker → MessageBuffer β → Nat → σ → Tracker × MessageBuffer β × σ) (ms : List (List β)) (posted : Nat)
+    (r : Tracker × MessageBuffer β × σ × Option Bool × Bool) : RecvRun σ :=
+  match r with
+  | (t', b', acc', some true, _) => recvLoop rep gc unpack ms t' b' (posted + 1) acc'
+  | (t', _, acc', some false, _) => ⟨acc', posted, ms.length, false, true, t'⟩
+  | (t', _, acc', none, _) => ⟨acc', posted, ms.length, false, false, t'⟩
+
+theorem gen_recvDone {σ : Type} (c : PairCfg α σ) (s : Pair α σ) (m : List α) (h : s.rreq = .complete m) :
+    Pair.step c s .recvDone =
+      some (recvDoneResult s (Gen.checkAndContinueBody c.getCount true c.unpack (setupRecv c.repaired) m.length s.rt
+                    (s.rb.received m) s.acc)) := by
+  unfold Gen.checkAndContinueBody recvDoneResult
+  simp only [Pair.step, h, gen_skipZeroIndices, gen_finished, setupRecv_skipped]
+  cases c.getCount <;> simp only [if_true, if_false, Bool.false_eq_true] <;> split <;> simp_all
+
+theorem gen_sendDone {σ : Type} (c : PairCfg α σ) (s : Pair α σ) (h : s.sreq = .complete) :
+    Pair.step c s .sendDone =
+      some (sendDoneResult s (Gen.checkAndContinueBody (σ := Unit) false true (fun t b _ a => (t, b, a))
+                    (fun t b => ((setupSend c.handle t b).tracker, (setupSend c.handle t b).buffer,
+                                 (setupSend c.handle t b).message)) 0 s.st s.sb ())) := by
+  unfold Gen.checkAndContinueBody sendDoneResult
+  simp only [Pair.step, h, gen_skipZeroIndices, gen_finished, setupSend_skipped]
+  split <;> simp_all
+
+theorem gen_recvLoop {β σ : Type} (rep gc : Bool)
+    (unpack : Tracker → MessageBuffer β → Nat → σ → Tracker × MessageBuffer β × σ)
+    (m : List β) (ms : List (List β)) (t : Tracker) (b : MessageBuffer β) (posted : Nat) (acc : σ) :
+    recvLoop rep gc unpack (m :: ms) t b posted acc =
+      recvLoopResult rep gc unpack ms posted
+        (Gen.checkAndContinueBody gc true unpack (setupRecv rep) m.length t (b.received m) acc) := by
+  unfold Gen.checkAndContinueBody recvLoopResult
+  rw [recvLoop]
+  simp only [gen_skipZeroIndices, gen_finished, setupRecv_skipped]
+  cases gc <;> simp only [if_true, if_false, Bool.false_eq_true] <;> split <;> simp_all <;> split <;> simp_all
+
 end DV.C06
